@@ -522,14 +522,15 @@ def registry_refuses(fi):
     -> None when fine, else the reason."""
     from ..pathsum import summarize, raising, normal
     from .. import straight as S
-    paths = summarize(fi, follow_exc=False)
+    paths = summarize(fi, unroll=1, follow_exc=True)
     if not raising(paths, "ValueError"):
         return "no path raises ValueError"
     for p in normal(paths):
         if not p.returned or p.ret == ("const", None):
             return "a path ends without returning an implementation [%s]" % describe_alt(p.facts)
         checked = any((k[0] == "is" and "None" in k[1:] and not t) or (k[0] == "in" and t) or (k[0] == "truth" and t) for (k, t) in p.facts)
-        constructed = p.ret[0] == "var" and p.ret[1][:1].isupper() or (p.ret[0] == "call" and p.ret[1] in (("fn", "functools.partial"),))
+        constructed = p.ret[0] == "var" and p.ret[1][:1].isupper() or (p.ret[0] == "call" and p.ret[1] in (("fn", "functools.partial"),)) or \
+            p.ret[0] == "sub"   # table[name]: a missing name raises KeyError instead of handing back None
         if not (checked or constructed):
             return "a path returns %s without having established that the name is known [%s]" % (S.show(p.ret)[:60], describe_alt(p.facts))
     return None
